@@ -68,11 +68,15 @@ type recLimiter struct {
 	listeners []*recListener
 	alwaysNo  bool
 	ctxs      []context.Context
+	during    func() // runs inside Acquire (what another goroutine does while the delegate decides)
 }
 
 func (d *recLimiter) Acquire(ctx context.Context) (core.Listener, bool) {
 	d.calls++
 	d.ctxs = append(d.ctxs, ctx)
+	if d.during != nil {
+		d.during()
+	}
 	if d.alwaysNo || (!verifGrantAll && !verif.Bool("delegate.grant")) {
 		return nil, false
 	}
